@@ -255,6 +255,7 @@ Section PathStr.
                           | LvScript abs => with_first (lit "1," ++ lit_str abs) false
                           | LvInline path m => with_first (lit "2," ++ lit_str path ++ lit "," ++ lit_str m) false
                           end
+            | HCond _ _ _ => lit "[" ++ join (lit ",") items ++ lit "]"
             | _ => failed
             end
         end
